@@ -100,14 +100,15 @@ def rule_E7(ctx, functions=None, only_keys=None):
             fg = fg or FuncGuards(prog, f)
             # other (non-optional) definitions of the same variable make uses ambiguous: only
             # uses that are textually after this assignment and before a re-assignment count
-            redefs = sorted([d.lineno for d in ast.walk(f.node) if isinstance(d, ast.Assign)
+            redefs = sorted([d._ord for d in ast.walk(f.node) if isinstance(d, ast.Assign)
                              and any(isinstance(t, ast.Name) and t.id == var for t in d.targets)])
-            nxt = [l for l in redefs if l > n.lineno]
+            nxt = [l for l in redefs if l > n._ord]
             end = nxt[0] if nxt else 10 ** 9
+            # a re-assignment's own right-hand side still reads the old value
+            end_stmt = next((d for d in ast.walk(f.node) if getattr(d, "_ord", None) == end), None)
+            end_last = max((x._ord for x in ast.walk(end_stmt) if hasattr(x, "lineno")), default=end) if end_stmt else end
             for d in _derefs(f.node, var):
-                if not (n.lineno < d.lineno <= end) and not (d.lineno == n.lineno):
-                    continue
-                if d.lineno == end and not textually_before(n, d):
+                if not (n._ord < d._ord <= end_last):
                     continue
                 atoms = fg.atoms(d)
                 con = "result of %s(): %s" % (cn, norm_src(_stmt(d)))
@@ -183,6 +184,12 @@ def _is_entry_var(f, var):
         if isinstance(n, ast.Assign) and any(isinstance(t, ast.Name) and t.id == var
                                              for t in n.targets):
             if isinstance(n.value, ast.Call) and callee_name(n.value) in ENTRY_ACCESSORS:
+                # WorkflowConductor.get_task renders a task for the provider (a fresh dict
+                # with a fixed set of keys); only WorkflowState.get_task returns a record
+                if callee_name(n.value) == "get_task" and isinstance(
+                        n.value.func, ast.Attribute) and "workflow_state" not in unparse(
+                        n.value.func.value) and ".WorkflowState." not in f.qualname:
+                    continue
                 return True
         if isinstance(n, (ast.For, ast.comprehension)):
             names = {x.id for x in ast.walk(n.target) if isinstance(x, ast.Name)}
@@ -306,6 +313,11 @@ def rule_U1(ctx):
     return res
 
 
+# work-list idioms: queue.Queue (put/get), collections.deque and plain lists (append/pop..)
+QUEUE_PUT = ("put", "put_nowait", "append", "appendleft")
+QUEUE_TAKE = ("get", "get_nowait", "popleft", "pop")
+
+
 def _tainted_names(f, prog=None):
     """Locals that may hold a task name read from a transition's 'do' (directly, through
     get_next_tasks() results, tuple elements or the first component of queue entries).  Taint
@@ -339,13 +351,21 @@ def _tainted_names(f, prog=None):
     for _ in range(5):
         for n in ast.walk(f.node):
             if isinstance(n, (ast.For, ast.comprehension)):
+                if isinstance(n.iter, ast.Name) and n.iter.id in queue_tainted:
+                    pos = queue_tainted[n.iter.id]
+                    if isinstance(n.target, ast.Name):
+                        t.add(n.target.id)
+                    elif isinstance(n.target, ast.Tuple):
+                        for i, e in enumerate(n.target.elts):
+                            if isinstance(e, ast.Name) and (i in pos or None in pos):
+                                t.add(e.id)
                 if carries(n.iter):
                     for x in ast.walk(n.target):
                         if isinstance(x, ast.Name):
                             t.add(x.id)
             if isinstance(n, ast.Assign):
                 v = n.value
-                from_queue = isinstance(v, ast.Call) and callee_name(v) == "get" and isinstance(
+                from_queue = isinstance(v, ast.Call) and callee_name(v) in QUEUE_TAKE and isinstance(
                     v.func, ast.Attribute) and isinstance(v.func.value, ast.Name) and \
                     v.func.value.id in queue_tainted
                 if from_queue:
@@ -362,7 +382,7 @@ def _tainted_names(f, prog=None):
                         for x in ast.walk(tg):
                             if isinstance(x, ast.Name):
                                 t.add(x.id)
-            if isinstance(n, ast.Call) and callee_name(n) == "put" and isinstance(
+            if isinstance(n, ast.Call) and callee_name(n) in QUEUE_PUT and isinstance(
                     n.func, ast.Attribute) and isinstance(n.func.value, ast.Name) and n.args:
                 a0 = n.args[0]
                 comps = list(enumerate(a0.elts)) if isinstance(a0, ast.Tuple) else [(None, a0)]
